@@ -51,6 +51,12 @@ def scenarios(ctx, thorough):
     sid += 1
     scs.append(S.mk(sid, "ack-unsolicited", "order", [{"a": "Probe", "tag": 90}, {"a": "Push", "what": "unsolicited_result"}, {"a": "Probe", "tag": 91},
                {"a": "Push", "what": "repeated_result"}, {"a": "Probe", "tag": 92}, {"a": "Settle"}]))
+    # the server's copy of an acknowledgement was lost: it sends the same content-related message again (same msg_id), alone or
+    # in a container next to a new one - every copy received is answered by an acknowledgement naming it
+    for what in ("content_then_again", "content_then_again_in_container"):
+        sid += 1
+        scs.append(S.mk(sid, "ack-" + what.replace("_", "-"), "order", [{"a": "Probe", "tag": 90}, {"a": "Push", "what": what}, {"a": "Probe", "tag": 91},
+                        {"a": "Push", "what": what}, {"a": "Settle"}]))
     for junk in ("unsolicited", "repeated"):
         for at in ("first", "last"):
             sid += 1
